@@ -150,6 +150,9 @@ def gen_state(rng, k, tier):
     s["stdin"] = rng.choice(["keep", "pipe", "closed", "null", "file"] + ["pty:%d" % rng.choice(UID_WITH + UID_WITHOUT)] * 5)
     if rng.random() < 0.5:
         s["stdout"] = "pty:%d" % rng.choice(UID_WITH + UID_WITHOUT)
+    if s["stdin"].startswith("pty:") and rng.random() < 0.6:
+        s["utmp"] = rng.choice(["c0a80a07" + "00" * 12, "0a000001" + "00" * 12, "00" * 16, "20010db8" + "00" * 8 + "00000001", "fe80" + "00" * 6 + "0102030405060708",
+                                "00000000" + "0000ffff" + "00" * 8, "7f000001" + "00" * 4 + "00000001" + "00" * 4])
     env = gen_env(rng)
     if env is not None and env != [] and rng.random() < 0.8:
         env.insert(rng.randrange(len(env) + 1), b"TZ=" + rng.choice(TZS))
@@ -476,6 +479,11 @@ def compare(run, lines, parsed, stream, stats):
                     want = (len(dom), dom) if dom is not None else None
                 elif name == "ipaddr":
                     want = (1, b"-")
+                    if "utmp" in recipe and recipe.get("stdin", "").startswith("pty:") and p["state"][3].startswith("0:N:"):
+                        a = bytes.fromhex(recipe["utmp"])
+                        if a != b"\0" * 16:
+                            txt = socket.inet_ntop(socket.AF_INET, a[:4]) if a[4:] == b"\0" * 12 else socket.inet_ntop(socket.AF_INET6, a)
+                            want = (len(txt), txt.encode()) if r["size"] > len(txt) else None      # inet_ntop leaves a short buffer alone
                 if want is None:
                     stats["unmodelled"][key] = stats["unmodelled"].get(key, 0) + 1
                     continue
@@ -508,6 +516,7 @@ def dist_add(dist, recipe, st):
     inc("chain", "orphaned-chain" if "chain" in recipe else "as-is")
     inc("thread", recipe.get("thread", "main"))
     inc("login", recipe.get("login", "keep").split(":")[0])
+    inc("utmp", "alternate-utmp-entry" if "utmp" in recipe else "none")
     inc("host", "kept" if recipe.get("host", "keep") == "keep" else "private-uts")
     inc("procfs", ("generated-status " if "procfake" in recipe else "real-status ") + ("generated-cgroup" if "cgtext" in recipe else "real-cgroup"))
     inc("clock", "real" if recipe.get("clock", "real") == "real" else ("ge-2^31" if ids[12] >= 2 ** 31 else "constructed"))
